@@ -32,8 +32,24 @@ run_one() {
   fi
   git -C /repo worktree remove --force "$w/r" >/dev/null 2>&1; rm -rf "$w" "$o"
 }
-export -f run_one
-printf '%s\n' "${list[@]}" | xargs -P "$jobs" -I{} bash -c 'run_one {}' | sort | tee seeded/RESULTS.tsv
+# canaries: each patch under selftest/canaries re-introduces a defect that was repaired by a fix: commit (F2, F3, F4,
+# F7); the check of its property has to report it again
+run_canary() {
+  f=$1; name=$(basename "$f" .patch)
+  case $name in F2*) p=C05;; F3*) p=C17;; F4*) p=C13;; F7*) p=C10;; *) return;; esac
+  w=$(mktemp -d /tmp/selftest.XXXXXX); o=$(mktemp -d /tmp/selftest-out.XXXXXX)
+  git -C /repo worktree add -q --detach "$w/r" HEAD >/dev/null 2>&1 || { echo -e "canary-$name\t-\tERROR worktree"; return; }
+  if ! git -C "$w/r" apply "/verif/$f" 2>/dev/null; then echo -e "canary-$name\t$p\tERROR patch does not apply"; else
+    GOVC_REPO="$w/r" GOVC_OUT="$o" ./bin/govc check "$p" --tier quick > "$o/$p.log" 2>&1; rc=$?
+    nv=$(grep -c '^VIOLATION' "$o/$p.log"); obl=$(grep '^VIOLATION' "$o/$p.log" | sed 's/.*obligation=//' | cut -d' ' -f1 | sort -u | head -3 | tr '\n' ' ')
+    if [ $rc = 1 ] && [ "$nv" -gt 0 ]; then st=DETECTED; else st="MISSED(exit=$rc)"; fi
+    echo -e "canary-$name\t$p\t$st\t$nv violation(s) (repaired defect re-introduced)\t$obl"
+  fi
+  git -C /repo worktree remove --force "$w/r" >/dev/null 2>&1; rm -rf "$w" "$o"
+}
+export -f run_one run_canary
+out=seeded/RESULTS.tsv; [ $# -gt 0 ] && out=/tmp/selftest.partial.tsv   # a filtered run does not replace the full table
+{ printf '%s\n' "${list[@]}" | xargs -P "$jobs" -I{} bash -c 'run_one {}'; if [ $# -eq 0 ]; then for c in selftest/canaries/*.patch; do run_canary "$c"; done; fi; } | sort | tee "$out"
 git -C /repo worktree prune
-if grep -q 'MISSED\|ERROR' seeded/RESULTS.tsv; then echo "SELFTEST: some seeded changes are not detected"; exit 1; fi
-echo "SELFTEST: all $(wc -l < seeded/RESULTS.tsv) seeded change/check pairs detected"
+if grep -q 'MISSED\|ERROR' "$out"; then echo "SELFTEST: some seeded changes are not detected"; exit 1; fi
+echo "SELFTEST: all $(wc -l < "$out") seeded change/check pairs detected"
